@@ -55,6 +55,35 @@ for n in XE.__all__:
                 f(); rec[label] = 'ok'
             except Exception as e:
                 rec[label] = type(e).__name__
+        # misuse through dot names of odd shapes (set a value, unset, read) and children of the wrong kind
+        odd = {}
+        try:
+            kid = sorted(getattr(c(xsd_check=False), 'possible_children_names', None) or ['step'])[0].replace('-', '_')
+        except Exception:
+            kid = 'step'
+        for nm in ('xml_', 'xml__' + kid, 'xml_' + kid + '_', 'xml_' + kid + '__x', 'xml_no_such_child', 'xml_No_Such', 'XML_' + kid, 'xml', 'x' * 3, 'xml_xml_' + kid, '__', 'a-b', ''):
+            for chk in (True, False):
+                for how, g in (('set', lambda e: setattr(e, nm, 'C')), ('unset', lambda e: setattr(e, nm, None)), ('get', lambda e: getattr(e, nm))):
+                    if nm.startswith('__') and how != 'get' or nm == '':
+                        continue
+                    try:
+                        e = c(xsd_check=chk)
+                    except Exception:
+                        continue
+                    try:
+                        g(e); st = 'ok'
+                    except Exception as ex:
+                        st = type(ex).__name__
+                    if st not in ('ok', 'AttributeError', 'TypeError', 'ValueError') and not st.startswith(DOC):
+                        odd['%s %s xsd_check=%s' % (how, nm, chk)] = st
+        for bad_child in (None, 'text', 3, c):
+            try:
+                c(xsd_check=True).add_child(bad_child); st = 'ok'
+            except Exception as ex:
+                st = type(ex).__name__
+            if st not in ('ok', 'AttributeError', 'TypeError', 'ValueError') and not st.startswith(DOC):
+                odd['add_child(%r)' % (bad_child if not isinstance(bad_child, type) else 'a class')] = st
+        rec['odd'] = odd
     rec['printed'] = bool(buf.getvalue())
     out.append(rec)
 json.dump(out, sys.stdout)
@@ -81,6 +110,9 @@ def class_sweep(rep):
             if internal:
                 rep.finding_or_violation('C19:class:%s:%s' % (rec['cls'], st), '%s: %s raises %s' % (rec['cls'], label, st),
                                          {'class': rec['cls'], 'call': label, 'raises': st})
+        for call, st in sorted(rec.get('odd', {}).items()):
+            n += 1
+            rep.finding_or_violation('C19:misuse:%s:%s' % (call.split(' xsd_check')[0], st), '%s: %s raises %s' % (rec['cls'], call, st), {'class': rec['cls'], 'call': call, 'raises': st})
         if rec['printed']:
             rep.violation('%s writes to stdout/stderr during construction / to_string' % rec['cls'], {'class': rec['cls']})
     return len(recs), n
